@@ -55,6 +55,19 @@ def refactorings():
     return out
 
 
+def touched_files(mut):
+    if 'file' in mut:
+        return {mut['file']}
+    out = set()
+    try:
+        for line in open(mut['patch']):
+            if line.startswith('+++ b/'):
+                out.add(line[6:].strip())
+    except OSError:
+        pass
+    return out
+
+
 def make_copy(repo):
     d = tempfile.mkdtemp(prefix='rta-mut-')
     subprocess.run(['rsync', '-a', '--exclude', 'target', '--exclude', '.git', repo.rstrip('/') + '/', d + '/'], check=True)
